@@ -19,16 +19,16 @@ namespace Pff.Ecc
 open Pff.Layout Pff.Ecc.B
 
 /-- block `b` (assembled from the damaged inputs) is handled correctly w.r.t. the original file -/
-def BlockOK (O : Ops) (fast : Bool) (orig : Bytes) (b : AsmBlock) : Prop :=
+def BlockOK (O : Ops) (fast : Bool) (mbs : Nat) (orig : Bytes) (b : AsmBlock) : Prop :=
   let m := (orig.drop b.off).take b.msg.length
   (b.msg = m ∧ needsRepair O fast b = false) ∨
   (needsRepair O fast b = true ∧ ∃ p, O.dec b.k b.msg b.ecc = some (m, p) ∧
-      (O.H m = b.hash ∨ O.chk b.k m p = true))
+      (O.H m = b.hash ∨ (O.chk b.k m p = true ∧ eccComplete mbs b = true)))
 
 theorem C01_whole_file_partial (O : Ops) (fast : Bool) (thr hashLen mbs : Nat) (kOf : Nat → Nat)
     (orig damaged trackD : Bytes) (hlen : damaged.length = orig.length)
     (hcover : ((assemble kOf hashLen mbs damaged trackD (damaged.length + 1) 0 0).map (·.msg)).flatten = damaged)
-    (hok : ∀ b ∈ assemble kOf hashLen mbs damaged trackD (damaged.length + 1) 0 0, BlockOK O fast orig b) :
+    (hok : ∀ b ∈ assemble kOf hashLen mbs damaged trackD (damaged.length + 1) 0 0, BlockOK O fast mbs orig b) :
     (damaged ≠ orig →
       correctWholeFile O fast thr kOf hashLen mbs damaged trackD =
         { output := some orig, corrupted := true, complete := true, partialRep := false }) ∧
@@ -57,7 +57,7 @@ theorem C01_header_file_partial (O : Ops) (fast : Bool) (thr k hashLen mbs readL
     (orig damaged trackD : Bytes) (hlen : damaged.length = orig.length)
     (hcover : ((assembleHeader k hashLen mbs readLen damaged trackD (damaged.length + 1) 0 0).map (·.msg)).flatten
                 = damaged.take readLen)
-    (hok : ∀ b ∈ assembleHeader k hashLen mbs readLen damaged trackD (damaged.length + 1) 0 0, BlockOK O fast orig b) :
+    (hok : ∀ b ∈ assembleHeader k hashLen mbs readLen damaged trackD (damaged.length + 1) 0 0, BlockOK O fast mbs orig b) :
     (damaged.take readLen ≠ orig.take readLen →
       correctHeaderFile O fast thr k hashLen mbs readLen damaged trackD =
         { output := some (orig.take readLen ++ damaged.drop readLen), corrupted := true, complete := true,
